@@ -198,6 +198,23 @@ def run_solvers(case):
     if relerr(sv_r, sv_f) > tol or np.abs(P_r - P_f).max() > tol:
         F.append(Finding("oracle", "exact_vs_randomized", "gap" + ("|complex" if case["cplx"] else ""),
                          f"sv rel {relerr(sv_r, sv_f):.2e}, projector {np.abs(P_r - P_f).max():.2e}"))
+    # dask back-end (real data): the compressed SVD with the documented four power iterations agrees with the exact solver when the
+    # tail after the gap decays slowly (tail / s_k = 0.25: error ~ 0.25^9 with the iterations, ~ 0.25 without)
+    if not case["cplx"]:
+        s2 = np.concatenate([np.linspace(50.0, 20.0, k), np.linspace(5.0, 1.0, r - k)]) * scale
+        X2 = (U * s2) @ V.T
+        Xc = da2d(X2, "t", "x").chunk({"t": max(2, n // 3), "x": -1})
+        try:
+            md = xe.single.EOF(n_modes=k, center=False, solver="randomized", random_state=case["rs"]).fit(Xc, "t")
+            mf = xe.single.EOF(n_modes=k, center=False, solver="full").fit(da2d(X2, "t", "x"), "t")
+            svd_, svf_ = md.singular_values().values, mf.singular_values().values
+            Cd = md.components().transpose("x", "mode").values
+            Cf = mf.components().transpose("x", "mode").values
+            e1, e2 = relerr(svd_, svf_), np.abs(Cd @ Cd.T - Cf @ Cf.T).max()
+            if e1 > 1e-3 or e2 > 1e-3:
+                F.append(Finding("oracle", "exact_vs_randomized", "gap|dask", f"dask solver vs exact: sv rel {e1:.2e}, projector {e2:.2e} (tail/s_k = 0.25)"))
+        except NotImplementedError:
+            pass
     a = res["auto"]
     same_full = all(np.array_equal(x, y) for x, y in zip(a, res["full"]))
     same_rand = all(np.array_equal(x, y) for x, y in zip(a, res["randomized"]))
